@@ -78,6 +78,17 @@ def anydataMain (lines : Array String) : IO Unit := do
     | ["new", a, ty, size, v] =>
       let (s', o) := step cap szl s (.new (nat! a) (nat! ty) (nat! size) (nat! v)); s := s'
       out.putStrLn (showOut o); out.putStrLn s!"live {s.live}"
+    | ["newc", a, ty, size, v] =>
+      -- constructed from a const lvalue: the AnyData holds its own copy, of the same type
+      let (s', o) := step cap szl s (.new (nat! a) (nat! ty) (nat! size) (nat! v)); s := s'
+      out.putStrLn (showOut o); out.putStrLn s!"live {s.live}"
+    | ["husk", a] =>
+      -- what a moved-from AnyData still holds: a moved-from object (inline storage) or nothing (LargeData)
+      (match lookup s (nat! a) with
+      | some (.inl o) => out.putStrLn (if o.moved then "husk moved" else "skip")
+      | some (.large none) => out.putStrLn "husk none"
+      | _ => out.putStrLn "skip")
+      out.putStrLn s!"live {s.live}"
     | ["move", b, a] =>
       let (s', o) := step cap szl s (.move (nat! b) (nat! a)); s := s'
       out.putStrLn (showOut o); out.putStrLn s!"live {s.live}"
